@@ -14,13 +14,10 @@ package index
 //             must change GetHash when flipped.
 
 import (
-	"bufio"
 	"bytes"
 	"context"
 	"crypto/sha1"
-	"encoding/json"
 	"fmt"
-	"io"
 	"os"
 	"path/filepath"
 	"reflect"
@@ -35,71 +32,32 @@ import (
 	"github.com/sourcegraph/zoekt/query"
 )
 
-// ---------------------------------------------------------------- fake ctags (this test binary re-executed)
+// ---------------------------------------------------------------- fake ctags
 
-func init() {
-	mode := os.Getenv("VF_FAKE_CTAGS")
-	if mode == "" {
-		return
-	}
-	for _, a := range os.Args[1:] {
-		if a == "--help" {
-			fmt.Println("fake ctags  +interactive")
-			os.Exit(0)
-		}
-	}
-	kw := map[string]string{"u1": "func ", "u2": "var ", "s1": "type ", "s2": "const "}[mode]
-	out := bufio.NewWriter(os.Stdout)
-	fmt.Fprintln(out, `{"_type":"program","name":"fake","version":"0"}`)
-	out.Flush()
-	if mode == "fail" {
-		fmt.Fprintln(out, `{"_type":"error","message":"fake failure","fatal":true}`)
-		out.Flush()
-		os.Exit(1)
-	}
-	in := bufio.NewReader(os.Stdin)
-	for {
-		line, err := in.ReadBytes('\n')
-		if err != nil {
-			os.Exit(0)
-		}
-		var req struct {
-			Filename string `json:"filename"`
-			Size     int    `json:"size"`
-		}
-		if json.Unmarshal(line, &req) != nil {
-			os.Exit(3)
-		}
-		buf := make([]byte, req.Size)
-		if _, err := io.ReadFull(in, buf); err != nil {
-			os.Exit(0)
-		}
-		for i, l := range strings.Split(string(buf), "\n") {
-			if strings.HasPrefix(l, kw) {
-				name := strings.TrimPrefix(l, kw)
-				if j := strings.IndexAny(name, " (={"); j >= 0 {
-					name = name[:j]
-				}
-				if name != "" {
-					b, _ := json.Marshal(map[string]any{"_type": "tag", "name": name, "path": req.Filename, "line": i + 1, "kind": strings.TrimSpace(kw), "language": "Go"})
-					out.Write(b)
-					out.WriteByte('\n')
-				}
-			}
-		}
-		fmt.Fprintln(out, `{"_type":"completed"}`)
-		out.Flush()
-	}
-}
+// A shell implementation of the universal-ctags interactive protocol (go-ctags): one JSON request line
+// {"command":..,"filename":..,"size":N} followed by N bytes; replies tag lines and {"_type":"completed"}.
+// mode selects the keyword whose following identifier is reported as a symbol ("fail": fatal error at start).
+const vfC38FakeScript = `#!/bin/sh
+case "$1" in --help) echo "fake ctags +interactive"; exit 0;; esac
+KW="@KW@"
+echo '{"_type":"program","name":"fake","version":"0"}'
+if [ "$KW" = "fail" ]; then echo '{"_type":"error","message":"fake failure","fatal":true}'; exit 1; fi
+while IFS= read -r line; do
+  size=$(printf '%s' "$line" | sed -n 's/.*"size":\([0-9]*\).*/\1/p')
+  fn=$(printf '%s' "$line" | sed -n 's/.*"filename":"\([^"]*\)".*/\1/p')
+  content=$(dd bs=1 count="$size" 2>/dev/null)
+  printf '%s\n' "$content" | grep -n "^$KW " | while IFS=: read -r ln rest; do
+    name=$(printf '%s' "$rest" | sed "s/^$KW //; s/[ (={].*//")
+    echo "{\"_type\":\"tag\",\"name\":\"$name\",\"path\":\"$fn\",\"line\":$ln,\"kind\":\"$KW\",\"language\":\"Go\"}"
+  done
+  echo '{"_type":"completed"}'
+done
+`
 
 func vfC38FakeBin(t *testing.T, dir, name, mode string) string {
-	exe, err := os.Executable()
-	if err != nil {
-		t.Fatal(err)
-	}
+	kw := map[string]string{"u1": "func", "u2": "var", "s1": "type", "s2": "const", "fail": "fail"}[mode]
 	p := filepath.Join(dir, name)
-	sh := fmt.Sprintf("#!/bin/sh\nVF_FAKE_CTAGS=%s exec %q \"$@\"\n", mode, exe)
-	if err := os.WriteFile(p, []byte(sh), 0o755); err != nil {
+	if err := os.WriteFile(p, []byte(strings.ReplaceAll(vfC38FakeScript, "@KW@", kw)), 0o755); err != nil {
 		t.Fatal(err)
 	}
 	return p
@@ -701,7 +659,7 @@ func TestVerifC38(t *testing.T) {
 		if ra.ID != a.ID || ra.Name != a.Name || !reflect.DeepEqual(ra.Branches, a.Branches) || ra.IndexOptions != a.IndexOptions {
 			vfOracleFail("merge:immutable-changed", "MergeMutable changed an immutable field", map[string]any{"r": vfC38RepoJSON(&a), "x": vfC38RepoJSON(&b)})
 		}
-		if err == nil && !mutated && (ra.URL != b.URL || ra.CommitURLTemplate != b.CommitURLTemplate) {
+		if err == nil && !mutated && (a.URL != b.URL || a.CommitURLTemplate != b.CommitURLTemplate || a.FileURLTemplate != b.FileURLTemplate || a.LineFragmentTemplate != b.LineFragmentTemplate) {
 			vfOracleFail("merge:missed", "MergeMutable reports no change although a mutable field differs", map[string]any{"r": vfC38RepoJSON(&a), "x": vfC38RepoJSON(&b)})
 		}
 		cls := "merge-err"
@@ -801,6 +759,7 @@ func TestVerifC38(t *testing.T) {
 				shape = "simple"
 			}
 		}
+		vfInfo(map[string]any{"phase": "built " + shape, "t": time.Since(t0).String()})
 		// ---- StateCases against this directory
 		nq := 4 + n/12
 		for qi := 0; qi < nq; qi++ {
@@ -835,6 +794,10 @@ func TestVerifC38(t *testing.T) {
 			coq := cApp("StateCase", diskCoq, cN(in.id(o2.GetHash())), vfC38Repo(&d2, in), cN(vfC38StateCode(st)))
 			vfCase(coq, vfKey("state", bi, qi, coq), len(what) > 0, []string{"state", "shape=" + shape, "state=" + string(st)},
 				map[string]any{"kind": "state", "shape": shape, "changed": what, "disk": diskJS, "desc": vfC38RepoJSON(&d2), "state": st})
+			if shape == "feature-patched" && (st == IndexStateEqual || st == IndexStateMeta) {
+				vfOracleFail("state:feature-version", "IndexState reports "+string(st)+" for an index written with a different feature version of a supported format version",
+					map[string]any{"disk": diskJS, "state": st})
+			}
 			// ---- oracle on the simple directories: Equal/Meta only if branches, identity and the effective hashed build options agree
 			if shape == "simple" && (st == IndexStateEqual || st == IndexStateMeta) {
 				if !reflect.DeepEqual(d2.Branches, repos[0].Branches) || d2.Name != desc.Name {
@@ -870,6 +833,9 @@ func TestVerifC38(t *testing.T) {
 			dumpA, err := vfC38Dump(dirA)
 			if err != nil {
 				t.Fatalf("dump: %v", err)
+			}
+			if base == "ctags" && !strings.Contains(dumpA, "\nsym ") {
+				t.Fatalf("harness: the fake ctags binaries produced no symbols:\n%s", dumpA)
 			}
 			if msgA != "" {
 				dumpA = "BUILD-ERROR"
